@@ -217,6 +217,42 @@ func ruleR027(c *Ctx) {
 						e = ast.Unparen(as.Rhs[i])
 					}
 				}
+				// an element taken out of a COLLECTION of children (the entries of a map literal, the items of a list
+				// literal, the arguments of a call) replaces the node: value, ok := ml.Map.Get(key); return value
+				if id, ok := e.(*ast.Ident); ok && isNamed(info.TypeOf(id), modPath, "AST") {
+					var src ast.Expr
+					ast.Inspect(fd.Body, func(y ast.Node) bool {
+						as, ok := y.(*ast.AssignStmt)
+						if !ok || len(as.Rhs) != 1 {
+							return true
+						}
+						for _, l := range as.Lhs {
+							if li, ok := l.(*ast.Ident); ok && info.ObjectOf(li) == info.ObjectOf(id) {
+								src = ast.Unparen(as.Rhs[0])
+							}
+						}
+						return true
+					})
+					var coll *ast.SelectorExpr
+					switch t := src.(type) {
+					case *ast.CallExpr:
+						if ms, ok := ast.Unparen(t.Fun).(*ast.SelectorExpr); ok {
+							coll, _ = ast.Unparen(ms.X).(*ast.SelectorExpr)
+						}
+					case *ast.IndexExpr:
+						coll, _ = ast.Unparen(t.X).(*ast.SelectorExpr)
+					}
+					if coll != nil {
+						if nt := namedOf(info.TypeOf(coll.X)); nt != nil && nt.Obj().Pkg() != nil && nt.Obj().Pkg().Path() == modPath {
+							if fsel, ok := info.Selections[coll]; ok && fsel.Kind() == types.FieldVal {
+								n++
+								key := fmt.Sprintf("%s#promote-element:%s.%s", fname, nt.Obj().Name(), coll.Sel.Name)
+								c.Violation(key, r.Pos(), "the optimizer replaces a node by one element of the collection %s.%s of a %s: the generated code evaluates every element of that collection (all entries of a map literal, all items of a list), so the other elements - impure calls, failing expressions - are no longer evaluated: {a:tick(),b:x}.b calls tick without the optimizer and not with it", nodeStr(c.Fset, coll.X), coll.Sel.Name, nt.Obj().Name())
+								continue
+							}
+						}
+					}
+				}
 				sel, ok := e.(*ast.SelectorExpr)
 				if !ok {
 					continue
